@@ -41,11 +41,13 @@ fn main() {
     match prop.as_str() {
         "C01" => props::c01::run(&mut ctx),
         "C02" => props::c02::run(&mut ctx),
+        "C03" => props::c03::run(&mut ctx),
         "C04" => props::c04::run(&mut ctx),
         "C05" => props::c05::run(&mut ctx),
         "C06" => props::c06::run(&mut ctx),
         "C07" => props::c07::run(&mut ctx),
         "C09" => props::c09::run(&mut ctx),
+        "C11" => props::c11::run(&mut ctx),
         x => { eprintln!("no harness for {x}"); std::process::exit(2); }
     }
     let mut j = ctx.ev.to_json();
